@@ -14,6 +14,7 @@ constants:
     N_SUM: N_A + N_B
     N_PROD: N_SUM * 4
     N_MIX: 2 + N_A * 2
+    A_CONSTANT_WITH_A_VERY_LONG_NAME_THAT_FILLS_THE_COLUMNS_X: 5
 
 aliases:
     COUNT_T: uint16
@@ -30,6 +31,9 @@ struct_defs:
 message_defs:
     PING:
         id: 2001
+        fields: null
+    CURSOR_FEEDBACK_DECODER_OUTPUT_VELOCITY_ESTIMATE_MSG:
+        id: 2003
         fields: null
     BLOCK:
         id: 2002
@@ -61,8 +65,8 @@ try:
     js = open(files[".js"]).read()
     ml = open(files[".m"]).read()
     hdr = open(files[".h"]).read()
-    consts = ["N_A", "N_B", "N_SUM", "N_PROD", "N_MIX"]
-    msgs = {"PING": 2001, "BLOCK": 2002}
+    consts = ["N_A", "N_B", "N_SUM", "N_PROD", "N_MIX", "A_CONSTANT_WITH_A_VERY_LONG_NAME_THAT_FILLS_THE_COLUMNS_X"]
+    msgs = {"PING": 2001, "BLOCK": 2002, "CURSOR_FEEDBACK_DECODER_OUTPUT_VELOCITY_ESTIMATE_MSG": 2003}
     structs = {"SAMPLE": "SAMPLE", "BLOCK": "MDF_BLOCK"}
     # ---- C side through gcc
     cvals = {}
@@ -85,7 +89,8 @@ try:
         exe = os.path.join(tmp, "probe")
         p = subprocess.run(["gcc", "-I", os.path.dirname(files[".h"]), "-o", exe, cfile], capture_output=True, text=True)
         if p.returncode != 0:
-            bad.append("the generated C header does not compile: " + p.stderr.strip().splitlines()[0][:200] if p.stderr.strip() else "gcc failed")
+            errs = [l for l in p.stderr.splitlines() if "error" in l]
+            bad.append("the generated C header does not compile / lacks a definition the other outputs have: " + (errs[0][:260] if errs else "gcc failed"))
         else:
             for line in subprocess.run([exe], capture_output=True, text=True).stdout.splitlines():
                 k, n, v = line.split()
